@@ -1403,8 +1403,18 @@ class RestAPI(object):
                     return aws_error("MissingRequiredParameter"), 400
 
 
-                error = params.get("error")
-                cause = params.get("cause")
+                """
+                Both error and cause are optional. A failure reported without
+                an error code is the generic States.TaskFailed.
+                """
+                error = params.get("error", "States.TaskFailed")
+                cause = params.get("cause", "")
+                if not isinstance(error, str) or not isinstance(cause, str) or not error:
+                    self.logger.error(
+                        "RestAPI SendTaskFailure: ValidationError: error and "
+                        "cause must be strings."
+                    )
+                    return aws_error("ValidationError"), 400
 
                 """
                 First check if the error or cause exceed length limits.
